@@ -1,6 +1,8 @@
 import Ezc3dVerif.Proofs.Progress
 import Ezc3dVerif.Proofs.NoUB
 import Ezc3dVerif.Properties.C13
+import Ezc3dVerif.Proofs.LoadTotal
+import Ezc3dVerif.Properties.C01
 /-
   C16 — damaged files are refused or loaded, never crash or hang (the part that is logic).
   For EVERY byte string: the model's loader never evaluates an unchecked access out of range (`ub`),
@@ -196,5 +198,46 @@ theorem load_terminates_header_and_parameters (file : Bytes) (h : Header) (s : I
 
 /-- the header reconciliation between the two never evaluates an unchecked access either -/
 theorem load_updateHeader_noUB (F : FloatOps) (s : C3D) : (updateHeader F s).NoUB := C13.updateHeader_noUB F s
+
+/-- LOADING ANY BYTE SEQUENCE EITHER RETURNS AN OBJECT OR THROWS A STANDARD EXCEPTION: for every byte string (and every float
+    model) the loader - header reader with its leading-zero loop, prologue, record chain with the group and parameter
+    readers and the size check, header reconciliation, data reader - never evaluates an unchecked access out of range and
+    never runs out of the fuel its loops are given (it terminates). -/
+theorem load_total (F : FloatOps) (file : Bytes) : (C3D.load F file).NoUB := by
+  intro k h
+  unfold C3D.load at h
+  split at h
+  · cases h
+  · rename_i k' hk'
+    have := Header_read_onlyFuel _ k' hk'
+    subst this
+    exact Header_read_terminates file hk'
+  · rename_i hd s1 _
+    split at h
+    · cases h
+    · rename_i k' hk'
+      have := readParameters_onlyFuel _ _ k' hk'
+      subst this
+      exact readParameters_terminates _ _ hk'
+    · split at h
+      · cases h
+      · rename_i k' hk'
+        exact C13.updateHeader_noUB F _ k' hk'
+      · split at h
+        · cases h
+        · rename_i k' hk'
+          exact readData_clean _ _ _ _ k' hk'
+        · cases h
+
+/-- the same, as the property words it: an object, or an exception of one of the standard classes -/
+theorem load_object_or_exception (F : FloatOps) (file : Bytes) :
+    (∃ c, C3D.load F file = .ok c) ∨ (∃ e, C3D.load F file = .throw e) := by
+  cases h : C3D.load F file with
+  | ok c => exact Or.inl ⟨c, rfl⟩
+  | throw e => exact Or.inr ⟨e, rfl⟩
+  | ub k => exact absurd h (load_total F file k)
+
+/-- non-vacuity of both branches: the empty file is refused, the file of `C01.s0` is loaded -/
+example : C3D.load C01.F0 [] = .throw .ios_failure := by decide +kernel
 
 end Ezc3d.C16
